@@ -444,8 +444,20 @@ func (g *gen) autoCmd() *model.Cmd {
 	for i := 0; i < nargs; i++ {
 		if av.ArgPos == i {
 			c.Args = append(c.Args, model.Arg{Toks: []string{g.varName()}})
-			if r.P(0.2) {
+			switch r.Intn(10) {
+			case 0, 1:
 				c.Args[i] = model.Arg{Toks: []string{"VAR_RESULT"}}
+			case 2:
+				// the argument that names the result var is written through a constant
+				keep := g.c.PConst
+				g.c.PConst = 1
+				c.Args[i] = model.Arg{Toks: []string{g.viaConst(g.varName())}}
+				g.c.PConst = keep
+			case 3:
+				// ... or is made of several tokens: the compared var is the whole rendered argument
+				c.Args[i] = model.Arg{Toks: []string{g.varName(), "+", fmt.Sprint(r.Intn(3))}}
+			case 4:
+				c.Args[i] = model.Arg{Toks: []string{"(", g.varName(), ")"}}
 			}
 		} else if i == nargs-1 || r.P(0.5) {
 			c.Args = append(c.Args, model.Arg{Toks: []string{fmt.Sprintf("N%d", g.nCmd)}})
